@@ -132,6 +132,11 @@ func runC07(c c07Case) *Violation {
 		if a, ok := answered(b); ok {
 			return a, ok
 		}
+		if b.ChanKind == "unbuf" && atomic.LoadInt32(&b.recvActive) == 0 {
+			// the (late) receiver has not started to receive yet: nothing can have been
+			// delivered on an unbuffered channel, the batch is certainly unanswered
+			return AckObs{}, false
+		}
 		if b.ChanKind == "unbuf" {
 			// the receiver goroutine appends after its receive completed
 			// (generous: it is only ever waited out when a violation is about to be reported)
